@@ -54,8 +54,22 @@ def finite_case(draw):
     guard = ["cmp", L.var(g), "==", L.num(init_val)] if c.b(0.6) else ["not", ["cmp", L.var(g), "==", L.num(stopv)]]
     body = gen.block(c, 0, c.integer(1, 3))
     # make sure the loop can stop: reassign g by a choice that takes the stopping value with positive probability
-    body.insert(c.integer(0, len(body)), ["assign", g, ["choice", [L.num(stopv), L.num(init_val)], [L.num(c.pick(PS))]]])
+    stop_stmt = ["assign", g, ["choice", [L.num(stopv), L.num(init_val)], [L.num(c.pick(PS))]]]
     init = [["assign", g, ["expr", L.num(init_val)]]]
+    zconst = None
+    if c.b(0.3):
+        # a random quantity fixed before the loop that the body only reads and that decides how fast the loop stops:
+        # its law given termination by n differs from its law before the loop
+        zconst = "z"
+        zdraw = c.pick([["draw", "Bernoulli", [L.num(c.pick(PS))]], ["draw", "DiscreteUniform", [L.num(0), L.num(2)]],
+                        ["choice", [L.num(0), L.num(1)], [L.num(c.pick(PS))]], ["choice", [L.num(1), L.num(3)], [L.num(c.pick(PS))]]])
+        init.append(["assign", "z", zdraw])
+        p1, p2 = c.pick(PS), c.pick(PS)
+        if p1 == p2:
+            p2 = "9/10"
+        stop_stmt = ["if", [[["cmp", L.var("z"), "==", L.num(1)], [["assign", g, ["choice", [L.num(stopv), L.num(init_val)], [L.num(p1)]]]]]],
+                     [["assign", g, ["choice", [L.num(stopv), L.num(init_val)], [L.num(p2)]]]]]
+    body.insert(c.integer(0, len(body)), stop_stmt)
     second = None
     if nf >= 2 and c.b(0.4):
         # conjunction guard: the loop can also stop through the second conjunct while the first still holds
@@ -77,6 +91,8 @@ def finite_case(draw):
     for _ in range(c.integer(1, 2)):
         v = c.pick(pool)
         mono[v] = mono.get(v, 0) + 1
+    if zconst is not None and c.b(0.7):
+        mono = {"z": c.integer(1, 2)} if c.b(0.6) else dict(mono, z=1)
     return {"what": "finite", "prog": prog, "mono": mono}
 
 
@@ -270,7 +286,7 @@ def run_case(case, tier="quick"):
     text = L.render_program(prog)
     kind, order, mono = case["kind"], case["order"], case["mono"]
     key = common.case_key({"t": text, "m": mono, "k": kind, "o": order})
-    tags = [case["what"], kind] + L.count_constructs(prog)
+    tags = [case["what"], kind] + L.count_constructs(prog) + (["goal_over_random_loop_constant"] if "z" in case["mono"] and case["what"] == "finite" else [])
     base = {"key": key, "tags": tags}
     tl = 25 if tier == "quick" else 200
     m = sympify(pd.monomial_to_str(mono))
